@@ -12,3 +12,8 @@ policy_values = z3.Function('policy_values', V, MapSV)   # content of RequestCon
 
 find_file = z3.Function('find_file', V, V, V)          # conf.find_file(name): path string or None
 opt_location = z3.Function('opt_location', V, V, V, V)  # conf.get_location(opt, group).location
+
+from pyvc.values import Real
+fs_mtime = z3.Function('fs_mtime', Str, Real)          # os.path.getmtime of an existing path
+fs_content = z3.Function('fs_content', Str, Str)       # text content of a readable file
+fs_eacces = z3.Function('fs_eacces', Str, Bool)        # opening the path fails with EACCES
